@@ -164,7 +164,8 @@ class ProtoImporter:
                 # Import a VLSIR primitive to an ideal element, and convert its parameters
                 target = import_vlsir_primitive(ref.external)
                 remapped_params = import_primitive_params(target, params)
-                params = target.Params(**import_literals(target, remapped_params))
+                params = import_unset(target, import_literals(target, remapped_params))
+                params = target.Params(**params)
 
             elif ref.external.domain in (
                 "hdl21.primitives",
@@ -172,7 +173,8 @@ class ProtoImporter:
             ):
                 # Retrieve the Primitive from `hdl21.primitives`, and convert its parameters
                 target = import_hdl21_primitive(ref.external)
-                params = target.Params(**import_literals(target, params))
+                params = import_unset(target, import_literals(target, params))
+                params = target.Params(**params)
 
             else:  # Externally-defined `ExternalModule`
                 # These must be declared in our `Package` being imported. Look up its header-info from `ext_modules`.
@@ -404,6 +406,19 @@ def import_literals(target: Primitive, params: Dict[str, Any]) -> Dict[str, Any]
         name: Literal(val) if name in scalars and isinstance(val, str) else val
         for name, val in params.items()
     }
+
+
+def import_unset(target: Primitive, params: Dict[str, Any]) -> Dict[str, Any]:
+    """Add the parameters of `target` which are absent from `params`, and may be `None`, as `None`.
+    Parameters set to `None` are not exported. They come back as `None`, also where their default is something else."""
+    from typing import get_args
+
+    unset = {
+        name: None
+        for name, param in target.Params.__params__.items()
+        if name not in params and type(None) in get_args(param.dtype)
+    }
+    return {**params, **unset}
 
 
 def import_primitive_params(
